@@ -22,7 +22,7 @@ import time
 
 VERIF = "/verif"
 REPO = "/repo"
-BASE = "/tmp/vlanes"
+BASE = os.environ.get("VLANES_BASE", "/tmp/vlanes")
 
 
 def sh(cmd, cwd=None, env=None, timeout=None):
